@@ -14,7 +14,7 @@ pub(crate) fn helper_ident(ast: &DeriveInput, base: &str) -> Ident {
 pub(crate) fn create_debug_map_builder(raw_string: &Ident) -> proc_macro2::TokenStream {
     quote!(
         #[allow(non_camel_case_types)] // We're using __ to help avoid clashes.
-        struct #raw_string(&'static str);
+        struct #raw_string(&'static ::core::primitive::str);
 
         impl ::core::fmt::Debug for #raw_string {
             #[inline]
